@@ -20,8 +20,7 @@ CHECKS = {
  'C18': dict(
   text='E2: each live value pattern (RE_NUM ... RE_DATETIME) is proved equivalent to the HTML microsyntax shape over unbounded strings (z3 regex theory). E1: symbolic model checking of the real Inputs validators with unbounded symbolic integers (days-in-month and '
        'ISO weeks-in-year decided for every year >= 1), of parse_value on strings assembled from symbolic digits and on '
-       'arbitrary short strings over the microsyntax alphabet, and of :in-range/:out-of-range ordering on a one-input '
-       'tree with symbolic min/max/value. Exhausted cells and budget-limited cells are listed separately.',
+       'arbitrary short strings over the microsyntax alphabet, of :in-range/:out-of-range ordering on a one-input tree with symbolic min/max/value, and of week-53 ordering (parse_value strictly monotone). Exhausted cells and budget-limited cells are listed separately.',
   design_ref='DESIGN.md §4 C18',
   technique='CrossHair symbolic execution of real code + z3 (unbounded ints, symbolic strings), reference calendar oracle, replay'),
  'C08': dict(
@@ -83,8 +82,8 @@ CHECKS = {
   technique='CrossHair symbolic execution of real API + z3 (unbounded limit), reference-model oracle, replay'),
  'C15': dict(
   text='Symbolic/enumerative checking of the real value types and cache: Eq/hash consistency of the IR value types with '
-       'symbolic field values (strings, ints, bools incl. True==1), of compile() over 19x19 argument tuples with and '
-       'without purge; setattr/delattr on every slot of every node; pickle/copy/deepcopy; all histories of 4 '
+       'symbolic field values (strings, ints, bools incl. True==1), of compile() over 27x27 argument tuples with and '
+       'without purge; setattr/delattr on every slot of every node; pickle/copy/deepcopy; no aliasing of the caller\'s namespaces/custom dicts (mutated after compile); all histories of 4 '
        'compile/purge calls before an observed compile compared with a cache-bypassing parse; cache bound filled past 500.',
   design_ref='DESIGN.md §4 C15',
   technique='CrossHair symbolic execution of real value types + z3 (symbolic fields, histories by symbolic index), replay'),
@@ -92,8 +91,8 @@ CHECKS = {
   text='Symbolic checking that one select() call (whose memo tables are shared by all elements) answers for every element '
        'as match() does alone, on a forms document whose <html lang>, <meta content>, radio name and submit type are '
        'symbolic strings; bounded histories (3 calls x 7 entry-point forms x 20 selectors, 5 documents) compared with a '
-       'pristine copy incl. serialisation, attrs and node identity; a probe subclass of the real matcher checks that the '
-       'namespace map / iframe flag are restored on return.',
+       'pristine copy incl. serialisation, attrs and node identity; equal-valued twin nodes, list/bytes attribute values and parent-less elements are left unchanged and '
+       'answer as pristine copies; a probe subclass of the real matcher checks that the namespace map / iframe flag are restored on return.',
   design_ref='DESIGN.md §4 C04',
   technique='CrossHair symbolic execution of real matcher + z3 (symbolic attribute strings, histories by symbolic index), replay'),
  'C05': dict(
@@ -131,7 +130,8 @@ CHECKS = {
   text='Checking of the real namespace matching: attribute namespace selectors against an element whose namespaced '
        'attribute URI and the caller\'s map value are symbolic strings (solver explores the equality structure); element '
        'namespace selectors over every equality pattern of (root ns, element ns, map[x], map[default]) x 15 selector forms '
-       '(exhaustive enumeration by symbolic index); an XHTML+SVG+xlink document from lxml-xml and html5lib under 7 prefix maps.',
+       '(exhaustive enumeration by symbolic index); an XHTML+SVG+xlink document from lxml-xml and html5lib under 7 prefix maps; a non-XHTML XML document mixing four namespaces under 8 maps with '
+       'HTML-only pseudo-classes and type-less list members (20 selectors x 3 entry points).',
   design_ref='DESIGN.md §4 C12',
   technique='CrossHair symbolic execution of real matcher + z3 (symbolic URIs), reference namespace predicate, replay'),
  'C19': dict(
@@ -151,8 +151,8 @@ CHECKS = {
   technique='CrossHair symbolic execution of real state pseudo-classes + z3 (symbolic attribute strings), set-law and reference oracles, replay'),
  'C14': dict(
   text='Schedules as solver variables: every mutable object reachable from the soupsieve modules\' globals and class '
-       'attributes is re-classed to a recording variant, each API call (15 compile patterns, 12 select/match/filter/closest '
-       'calls) is traced, and for every pair (quick) / triple (thorough) of calls z3 decides whether an interleaving exists '
+       'attributes is re-classed to a recording variant, results of lru_cache\'d functions are handed out as recording containers, each API call (21 compile patterns incl. custom aliases, 18 '
+       'select/match/filter/closest calls, 8 calls on parent-less elements) is traced from the state after purge(), and for every pair (quick) / triple (thorough) of calls z3 decides whether an interleaving exists '
        'in which a read observes another thread\'s differing write; satisfiable schedules are enforced on real threads by '
        'a lock-step scheduler and only divergence from the sequential result is reported. With no shared writes every query '
        'is unsat and the evidence says so.',
